@@ -1,4 +1,4 @@
-mod gen; mod pipe; mod led; mod spd; mod shut; mod geo; mod c03; mod c03b; mod disp; mod est; mod trn; mod c10;
+mod gen; mod pipe; mod led; mod spd; mod shut; mod geo; mod c03; mod c03b; mod disp; mod est; mod trn; mod c10; mod rt; mod c19;
 use altrios_core::prelude::*;
 use altrios_core::traits::*;
 use altrios_core::consist::locomotive::locomotive_model::PowertrainType;
@@ -83,6 +83,8 @@ fn main() {
         "serde" => p_serde(),
         "mass" => p_mass(),
         "net" => p_net(),
+        "rt" => rt::run(),
+        "c19" => c19::run(),
         "c10" => c10::run(),
         "trn" => { let a: Vec<String> = std::env::args().collect(); trn::search(a[2].parse().unwrap(), a[3].parse().unwrap()) },
         "est" => { let a: Vec<String> = std::env::args().collect(); est::search(a[2].parse().unwrap(), a[3].parse().unwrap()) },
